@@ -40,6 +40,11 @@ var substTable = map[string]string{
 	"(*os.File).Close":           "FileClose",
 	"(*os.File).Sync":            "FileSync",
 	"(*os.File).Name":            "FileName",
+	"os.Stat":                    "Stat",
+	"os.Lstat":                   "Stat",
+	"os.IsNotExist":              "IsNotExist",
+	"os.IsExist":                 "IsExist",
+	"errors.Is":                  "ErrorsIs",
 	"os.Remove":                  "Remove",
 	"os.Rename":                  "Rename",
 	"os.MkdirAll":                "MkdirAll",
